@@ -166,6 +166,14 @@ func init() {
 					}
 				}
 			}
+			if r.chance(1, 6) {
+				// the other HTTP version (gRPC over HTTP/1.x is refused, but only for paths the transcoder serves)
+				req.ProtoMajor = 3 - req.ProtoMajor
+				if req.ProtoMajor != 1 && req.ProtoMajor != 2 {
+					req.ProtoMajor = 1
+				}
+				tag += "+httpversion"
+			}
 			var body []byte
 			for _, ch := range req.Chunks {
 				body = append(body, ch...)
